@@ -41,9 +41,10 @@ SCALAR = st.one_of(
     st.sampled_from(_TEXTS).map(lambda v: enc("str", v)),
     st.sampled_from(["2020-01-01", "0001-01-01", "9999-12-31", "1999-02-28"]).map(lambda v: enc("date", v)),
     st.sampled_from(["12:30:00", "00:00:00", "23:59:59"]).map(lambda v: enc("time", v)),
-    st.sampled_from(["12:30:00.250000", "23:59:59.999999"]).map(lambda v: enc("time", v)),
+    st.sampled_from(["12:30:00.250000", "23:59:59.999999", "12:30:00+02:00"]).map(lambda v: enc("time", v)),
     st.sampled_from(["2020-01-01T12:30:00", "1000-01-01T00:00:00", "0999-12-31T23:59:59",
-                     "2020-01-01T12:30:00.123456"]).map(lambda v: enc("datetime", v)),
+                     "2020-01-01T12:30:00.123456", "2020-01-01T12:30:00+02:00",
+                     "2020-06-01T00:00:00-05:00"]).map(lambda v: enc("datetime", v)),
     st.just(enc("none")),
 )
 
@@ -77,10 +78,11 @@ def typed_input_for(dtype):
         return st.one_of(st.sampled_from(["2020-01-01", "1999-12-31"]).map(lambda v: enc("date", v)),
                          st.sampled_from(["2021-02-03"]).map(lambda v: enc("str", v)))
     if dtype == "time":
-        return st.one_of(st.sampled_from(["12:30:00", "01:02:03.500000"]).map(lambda v: enc("time", v)),
+        return st.one_of(st.sampled_from(["12:30:00", "01:02:03.500000", "01:02:03+01:00"]).map(lambda v: enc("time", v)),
                          st.sampled_from(["04:05:06"]).map(lambda v: enc("str", v)))
     if dtype == "datetime":
-        return st.one_of(st.sampled_from(["2020-01-01T12:30:00", "2020-01-01T12:30:00.5"]).map(lambda v: enc("datetime", v)),
+        return st.one_of(st.sampled_from(["2020-01-01T12:30:00", "2020-01-01T12:30:00.5",
+                                          "2020-01-01T12:30:00+02:00"]).map(lambda v: enc("datetime", v)),
                          st.sampled_from(["2021-02-03 04:05:06"]).map(lambda v: enc("str", v)))
     k = int(dtype.split("-")[0])
     good = "(" + ";".join(["m%d" % i for i in range(k)]) + ")"
@@ -225,6 +227,19 @@ def normal_form_failures(p, where):
             fails.append(failure("values.text_roundtrip", "%s: value %r of dtype %s becomes %r after text "
                                  "and back" % (where, v, d, back), dtype=str.__str__(d)))
             break
+        if not str.__str__(d).endswith("-tuple"):
+            # the text form the writers use is str(value)
+            try:
+                back2 = libdtypes.get(str(v), d)
+            except Exception as exc:  # noqa
+                fails.append(failure("values.text_roundtrip", "%s: the text %r of value %r (dtype %s) cannot "
+                                     "be converted back: %r" % (where, str(v), v, d, exc),
+                                     dtype=str.__str__(d)))
+                break
+            if snap.tv(back2) != snap.tv(v):
+                fails.append(failure("values.text_roundtrip", "%s: value %r of dtype %s becomes %r after "
+                                     "str() and back" % (where, v, d, back2), dtype=str.__str__(d)))
+                break
     try:
         p.values = p.values
     except Exception as exc:  # noqa
@@ -247,7 +262,9 @@ ALLOWED_EXC = {
 
 
 def run_history(history, want=("values",), only=None):
-    props = [odml.Property(name="p0"), odml.Property(name="p1", values=[1, 2], dtype="int")]
+    props = [odml.Property(name="p0"),
+             odml.Property(name="p1", values=[1, 2], dtype="int", unit="mV", definition="def",
+                           reference="ref", value_origin="vo", uncertainty=0.1)]
     sec = odml.Section(name="s", type="t")
     sec.append(props[0])
     fails = []
